@@ -26,7 +26,27 @@ RXNS = {
     "r4": (2, {"structs": ["s1"], "counts": [1], "energy": -30.0, "unit": 1.0 / 627.5095, "weight": 4.0, "noise_rel_factor": 0.01}),
     # a system listed twice (A2 - A - A): the counts of repeated entries add up
     "r5": (2, {"structs": ["s2", "s1", "s1"], "counts": [1, -1, -1], "energy": 3.5}),
+    # orbital-derivative entries: an entry (system, (kind, index)) stands for the derivative of the system's energy with respect
+    # to the occupation of that orbital (eigenvalue data); looked up in the derivative dictionaries
+    "r6": (0, {"structs": [("s1", ("O", 0))], "counts": [1], "noise": 0.02}),
+    "r7": (0, {"structs": [("s2", ("U", 0)), "s1", ("s2", ("O", 1))], "counts": [1, -1, 0.5]}),
+    # an XC reaction with such an entry: the Kohn-Sham baseline dictionary has no orbital entries (KeyError after the exchange rows)
+    "r8": (2, {"structs": ["s1", ("s1", ("O", 1))], "counts": [1, 1], "energy": 1.0}),
 }
+ORBS = {"O": [0, 1], "U": [0]}
+
+
+def plain_systems(rx):
+    return {s for s in rx["structs"] if not isinstance(s, tuple)}
+
+
+def deriv_systems(rx):
+    return {s[0] for s in rx["structs"] if isinstance(s, tuple)}
+
+
+def entry(d_plain, d_deriv, s):
+    """value of a dictionary pair at a reaction entry"""
+    return d_deriv[s[0]][s[1]] if isinstance(s, tuple) else d_plain[s]
 
 
 def quiet(fn, *a, **k):
@@ -62,8 +82,19 @@ class World:
             wt = rng.uniform(0.05, 0.5, size=n)
             val = -rng.uniform(0.1, 1.0, size=n)
             ref = {"wt": wt, "val": val, "e_tot_orig": float(-10 - rng.uniform()), "exc_orig": float(-2 - rng.uniform()), "nspin": nspin}
+            # occupation derivatives of the raw features for the orbitals of ORBS (format of descriptors.get_descriptors:
+            # an array per orbital, (spin, array) for spin-polarised systems) and the reference eigenvalue contributions
+            ddesc, dval = {}, {}
+            for kind, idxs in ORBS.items():
+                ddesc[kind], dval[kind] = {}, {}
+                for io in idxs:
+                    arr = rng.normal(size=(nf, n)) * np.maximum(desc[0, :1], 1e-3)
+                    arr[0] = np.abs(arr[0])
+                    ddesc[kind][str(io)] = [int((io + len(kind)) % 2), arr] if nspin == 2 else arr
+                    dval[kind][str(io)] = float(-rng.uniform(0.1, 0.6))
+            ref["dval"] = dval
             chkfile.save(os.path.join(self.ddir["REF"], sid + ".hdf5"), "train_data", ref)
-            chkfile.save(os.path.join(self.ddir["SL"], sid + ".hdf5"), "train_data", {"desc": desc})
+            chkfile.save(os.path.join(self.ddir["SL"], sid + ".hdf5"), "train_data", {"desc": desc, "ddesc": ddesc})
             self.data[sid] = (desc, wt, val, ref)
         self.kernels = []
         for k, comp_k in enumerate(comp):
@@ -71,7 +102,9 @@ class World:
             n1 = fl.nfeat
             kern = get_rbf_kernel(slice(0, n1), 0.5 + 0.1 * np.arange(n1) + 0.05 * k, scale=1.0 + 0.3 * k)
             dk = DFTKernel(kern, fl, mode if comp_k == "x" else "NPOL", baselines.lda_x if comp_k == "x" else baselines.one_xc,
-                           baselines.zero_xc if comp_k == "x" else baselines.gga_c_pbe, component=comp_k, ctrl_tol=1e-4)
+                           # exchange kernels: no additive baseline (the usual set-up) or a non-zero one (so that the baseline
+                           # dictionaries of exchange kernels, plain and derivative, enter the labels)
+                           (baselines.zero_xc if seed % 2 else baselines.gga_x_pbe) if comp_k == "x" else baselines.gga_c_pbe, component=comp_k, ctrl_tol=1e-4)
             self.kernels.append(dk)
         self.gp = MOLGP(self.kernels, self.settings, default_noise=0.03)
         X0T_list = [self.settings.normalizers.get_normalized_feature_vector(self.data[s][0][..., 4:]) for s in ("s1", "s2", "s3")]
@@ -80,6 +113,7 @@ class World:
     def project(self):
         gp = self.gp
         return {"cov": [sorted(k.cov_dict.keys()) for k in gp.kernels], "refs": sorted(gp.exx_ref_dict.keys()),
+                "dcov": [sorted(k.dcov_dict.keys()) for k in gp.kernels], "drefs": sorted(gp.dexx_ref_dict.keys()),
                 "nref": len(gp.rxn_ref_list), "nnoise": len(gp.rxn_noise_list), "ncov": [len(k.rxn_cov_list) for k in gp.kernels]}
 
 
@@ -91,28 +125,32 @@ def spec_replay(comp, hist):
     XK = [k for k in range(nk) if comp[k] == "x"]
     CK = [k for k in range(nk) if comp[k] != "x"]
     cov = [set() for _ in range(nk)]
-    refs = set()
+    dcov = [set() for _ in range(nk)]
+    refs, drefs = set(), set()
     rr, rn, rc = [], [], [[] for _ in range(nk)]
     out = []
     for op in hist:
         err = False
         if op[0] == "store":
-            ids, getcorr = set(op[1]), op[2]
+            ids, getcorr, deriv = set(op[1]), op[2], op[3]
             for k in range(nk):
                 if getcorr or comp[k] == "x":
                     cov[k] |= ids
+                    if deriv:
+                        dcov[k] |= ids
+                        drefs |= ids
             if getcorr or comp[0] == "x":
                 refs |= ids
         elif op[0] == "add":
             for rid in op[1]:
                 mode, rx = RXNS[rid]
-                need = set(rx["structs"])
-                if mode == 0 and not need <= refs:
+                need, dneed = plain_systems(rx), deriv_systems(rx)
+                if mode == 0 and not (need <= refs and dneed <= drefs):
                     err = True
                     break
                 bad = False
                 for k in XK:
-                    if need <= cov[k]:
+                    if need <= cov[k] and dneed <= dcov[k]:
                         rc[k].append(rid)
                     else:
                         bad = True
@@ -121,11 +159,11 @@ def spec_replay(comp, hist):
                     err = True
                     break
                 if mode == 2:
-                    if not need <= refs:
+                    if not need <= refs or dneed:
                         err = True
                         break
                     for k in CK:
-                        if need <= cov[k]:
+                        if need <= cov[k] and dneed <= dcov[k]:
                             rc[k].append(rid)
                         else:
                             bad = True
@@ -143,7 +181,7 @@ def spec_replay(comp, hist):
         elif op[0] == "fit":
             aligned = all(len(x) == len(rr) for x in rc) and len(rn) == len(rr)
             err = not (aligned and len(rr) > 0)
-        out.append({"err": err, "cov": [sorted(c) for c in cov], "refs": sorted(refs), "nref": len(rr), "nnoise": len(rn),
+        out.append({"err": err, "cov": [sorted(c) for c in cov], "refs": sorted(refs), "dcov": [sorted(c) for c in dcov], "drefs": sorted(drefs), "nref": len(rr), "nnoise": len(rn),
                     "ncov": [len(x) for x in rc], "rows": [list(x) for x in rc], "rxns": list(rr)})
     return out
 
@@ -159,12 +197,12 @@ def oracle_fit(ck, W, exp, tag):
         mode, rx = RXNS[rid]
         lab = 0.0
         if mode == 0:
-            lab += sum(c * gp.exx_ref_dict[s] for s, c in zip(rx["structs"], rx["counts"]))
+            lab += sum(c * entry(gp.exx_ref_dict, gp.dexx_ref_dict, s) for s, c in zip(rx["structs"], rx["counts"]))
         else:
             lab += rx["energy"] * rx.get("unit", KCAL) - sum(c * gp.ks_baseline_dict[s] for s, c in zip(rx["structs"], rx["counts"]))
         for k in gp.kernels:
             if k.component == "x" or mode == 2:
-                lab -= sum(c * k.base_dict[s] for s, c in zip(rx["structs"], rx["counts"]))
+                lab -= sum(c * entry(k.base_dict, k.dbase_dict, s) for s, c in zip(rx["structs"], rx["counts"]))
         if abs(lab - y[r]) > 1e-10 * (1 + abs(lab)):
             ck.violation("fit:label:%s" % rid, {"tag": tag, "impl": float(y[r]), "expected": float(lab)})
         nz = 0.03
@@ -188,7 +226,7 @@ def oracle_fit(ck, W, exp, tag):
                 rows.append(np.zeros(Kmm.shape[0]))
             else:
                 _, rx = RXNS[rid]
-                rows.append(sum(c * k.cov_dict[s] for s, c in zip(rx["structs"], rx["counts"])))
+                rows.append(sum(c * entry(k.cov_dict, k.dcov_dict, s) for s, c in zip(rx["structs"], rx["counts"])))
         Kmn = np.array(rows).T
         sol = np.linalg.solve(Kmm + 1e-9 * np.eye(Kmm.shape[0]), Kmn)
         Kcov += Kmn.T.dot(sol)
@@ -202,7 +240,7 @@ def oracle_fit(ck, W, exp, tag):
         if np.abs(a_ref - k.alpha).max() > 1e-6 * (1 + np.abs(a_ref).max()):
             ck.violation("fit:kernel-weights:kernel%d" % ki, {"tag": tag, "err": float(np.abs(a_ref - k.alpha).max())})
     # residual on the training reactions = Sigma alpha_mol
-    pred = sum(np.array([(sum(c * k.cov_dict[s] for s, c in zip(RXNS[rid][1]["structs"], RXNS[rid][1]["counts"])) if rid != "zero"
+    pred = sum(np.array([(sum(c * entry(k.cov_dict, k.dcov_dict, s) for s, c in zip(RXNS[rid][1]["structs"], RXNS[rid][1]["counts"])) if rid != "zero"
                           else np.zeros(k.Nctrl)) for rid in exp["rows"][ki]]).dot(k.alpha) for ki, k in enumerate(gp.kernels))
     if np.abs((y - pred) - Sigma.dot(gp.alpha_mol_)).max() > 1e-6 * (1 + np.abs(y).max()):
         ck.violation("fit:residual-not-noise-times-weights", {"tag": tag, "err": float(np.abs((y - pred) - Sigma.dot(gp.alpha_mol_)).max())})
@@ -224,7 +262,8 @@ def replay(ck, comp, hist, tmp, seed, mode):
         err = False
         try:
             if op[0] == "store":
-                quiet(W.gp.store_mol_covs, W.ddir, sorted(op[1]), get_orb_deriv=False, get_correlation=op[2])
+                # "read the derivatives iff the files have them" (None) is the same request as True for these files
+                quiet(W.gp.store_mol_covs, W.ddir, sorted(op[1]), get_orb_deriv=(None if (op[3] and step % 2) else bool(op[3])), get_correlation=op[2])
             elif op[0] == "add":
                 W.gp.add_reactions([(RXNS[r][0], dict(RXNS[r][1])) for r in op[1]])
             elif op[0] == "reset":
@@ -238,7 +277,7 @@ def replay(ck, comp, hist, tmp, seed, mode):
             ck.violation("projection:%s:%s:%s" % (tag, op[0], "unexpected-" + str(err) if err else "expected-error-missing"),
                          {"hist": hist, "step": step, "impl": pr, "spec": {k: exp[k] for k in pr}}, replay={"comp": comp, "hist": hist})
             return
-        for key in ("cov", "refs", "nref", "nnoise", "ncov"):
+        for key in ("cov", "refs", "dcov", "drefs", "nref", "nnoise", "ncov"):
             if pr[key] != exp[key]:
                 ck.violation("projection:%s:%s:%s-differs" % (tag, op[0], key), {"hist": hist, "step": step, "impl": pr[key], "spec": exp[key]},
                              replay={"comp": comp, "hist": hist})
@@ -266,12 +305,12 @@ def main():
     ck = Check("C16", "model_checking")
     rng = np.random.default_rng(ck.seed)
     quick = ck.tier == "quick"
-    ck.rule = ("history = <=5 operations (store_mol_covs(ids, get_correlation) | add_reactions(<=2 reactions) | reset_reactions | fit) "
+    ck.rule = ("history = <=5 operations (store_mol_covs(ids, get_correlation, get_orb_deriv) | add_reactions(<=2 reactions) | reset_reactions | fit) "
                "simulated by TLC for three kernel layouts; replayed on MOLGP with synthetic hdf5 training data; distinct = (layout, "
                "history); non-trivial = contains a successful fit or a failing add")
     total_hists = {}
     for comp_name, comp in (("XC", ["x", "c"]), ("X", ["x"]), ("CX", ["c", "x"])):
-        r = run_tlc("MC_GPTrain", "MC_GPTrain_%s.cfg" % comp_name, workers=8, timeout=1200, coverage=(comp_name == "XC"))
+        r = run_tlc("MC_GPTrain", "MC_GPTrain_%s%s.cfg" % (comp_name, "" if quick else "_deep"), workers=16, timeout=3000, coverage=(comp_name == "XC"))
         if r.error:
             raise MachineryError("TLC: " + r.error)
         ck.add_tlc("GPTrain/" + comp_name, r, require_actions=("Store", "AddReactions", "Reset", "Fit") if comp_name == "XC" else ())
@@ -300,7 +339,7 @@ def main():
                 return s
             uniq = {repr(h): h for h in hs}
             def norm(h):
-                return [[o[0]] + ([sorted(o[1]), o[2]] if o[0] == "store" else [list(o[1])] if o[0] == "add" else []) for o in h]
+                return [[o[0]] + ([sorted(o[1]), o[2], o[3]] if o[0] == "store" else [list(o[1])] if o[0] == "add" else []) for o in h]
             good, failing, rest = [], [], []
             for h in uniq.values():
                 st = spec_replay(comp, norm(h))
@@ -327,10 +366,14 @@ def main():
         shutil.rmtree(tmp, ignore_errors=True)
     nfit = sum(1 for k in ck.distinct if isinstance(k, tuple) and k[0] == 'fit')
     ck.extra["successful_fits_checked"] = nfit
+    nder = sum(1 for k in ck.distinct if isinstance(k, tuple) and k[0] == 'fit' and any(r in ("r6", "r7") for r in k[2]))
+    ck.extra["successful_fits_with_orbital_derivative_entries"] = nder
+    if nder < 3:
+        raise MachineryError("vacuous: only %d successful fits contained orbital-derivative entries" % nder)
     if nfit < 20:
         raise MachineryError("vacuous: only %d successful fits were replayed" % nfit)
     ck.assumptions = ["synthetic training data (random features incl. points under the 1e-6 training mask) written with pyscf chkfile",
-                      "orbital-occupation derivative entries and MOLGP2 are not exercised", "weights compared to 1e-6..1e-7 relative (Cholesky vs LU)"]
+                      "MOLGP2 (libxc baselines through DFTKernel2) is not exercised", "weights compared to 1e-6..1e-7 relative (Cholesky vs LU)"]
     return ck.finish()
 
 
